@@ -687,6 +687,19 @@ def clientResponse (env : Env) (cfg : Cfg) (fuel : Nat) (m : MethodDef) (body : 
   | .error e => .error e
   | .ok (vs, r) => if r.isEmpty then .ok vs else .error .value
 
+/-- outcome of the generated server's `handle` for a method id: unknown ids, methods the definition marks
+    unsupported (`method name;`) and supported methods the server class leaves at the generated stub all raise
+    `RMCError("Core::NotImplemented")`; otherwise the implementation runs -/
+inductive Dispatch where
+  | notImplemented
+  | run (m : MethodDef)
+  deriving DecidableEq, Repr
+
+def dispatch (p : ProtoDef) (implemented : Name → Bool) (id : Nat) : Dispatch :=
+  match findMethodById p id with
+  | none => .notImplemented
+  | some m => if m.supported && implemented m.name then .run m else .notImplemented
+
 /-- `RMCClient.__init__`: `if self.client.minor_version() >= 3: self.settings["nex.struct_header"] = True` -/
 def rmcClientCfg (cfg : Cfg) (minor : Nat) : Cfg :=
   if minor ≥ 3 then { cfg with structHeader := true } else cfg
